@@ -9,6 +9,7 @@ import (
 
 	"github.com/privacybydesign/gabi"
 	"github.com/privacybydesign/gabi/big"
+	"github.com/privacybydesign/gabi/rangeproof"
 	"github.com/privacybydesign/gabi/revocation"
 )
 
@@ -289,6 +290,48 @@ func genC07(g *Rng, tier string, emit func(Op)) {
 		if col.nrel > 0 {
 			emit(col.relOp("sequential"))
 		}
+	}
+	// range statements: the square roots of the slack and their blinding values are hidden numbers
+	// too, each with a randomiser of its own. Were two of them blinded alike, the difference of
+	// their responses would be c times the difference of the roots (and a root that is 0 gives
+	// the others away, hence the attribute).
+	{
+		nrp, ndep := 0, 0
+		detail := ""
+		for _, slack := range []int64{0, 1, 2, 5, 13, 41, 7, 1000003} {
+			m := g.bits(60)
+			cred := issueCred(kp, randSecret(g), []*big.Int{m, g.bits(60)})
+			st, err := rangeproof.NewStatement(rangeproof.GreaterOrEqual, new(big.Int).Sub(m, bi(slack)))
+			if err != nil {
+				panic(err)
+			}
+			p, err := cred.CreateDisclosureProof([]int{2}, map[int][]*rangeproof.Statement{1: {st}}, false, g.bits(256), g.bits(80))
+			if err != nil {
+				panic(err)
+			}
+			for _, rps := range p.RangeProofs {
+				for _, rp := range rps {
+					nrp++
+					for _, resp := range [][]*big.Int{rp.DResponses, rp.VResponses} {
+						for i := range resp {
+							for j := i + 1; j < len(resp); j++ {
+								d := new(big.Int).Sub(resp[i], resp[j])
+								if d.Sign() == 0 || new(big.Int).Mod(d, p.C).Sign() == 0 {
+									ndep++
+									detail = fmt.Sprintf(" (slack %d, responses %d and %d)", slack, i, j)
+								}
+							}
+						}
+					}
+				}
+			}
+		}
+		res := "independent"
+		if ndep > 0 {
+			res = fmt.Sprintf("dependent %d%s", ndep, detail)
+		}
+		emit(Op{"op": "recorded", "class": "range-proof-response-relations", "label": "independent", "nomodel": true, "fkey": "C07/range-proof-randomisers",
+			"result": res, "proofs": nrp})
 	}
 	// every short history over {P = prepare the cache, U = somebody else is revoked and the witness
 	// is updated, D = proof with non-revocation, d = proof without} on one credential: what a
